@@ -18,6 +18,15 @@ use crate::fsm::vec_to_string;
 #[cfg(feature = "Debug")]
 use crate::common::debug;
 
+/// Maximal nesting of brackets in an expression. The parser works recursively on nested
+/// expressions, this limit keeps its stack usage bounded.
+pub const MAX_EXPRESSION_NESTING: usize = 64;
+
+/// Maximal number of operators in one statement of an expression. The depth of the resulting
+/// expression tree - and with it the recursion depth of the evaluation - is bounded by this
+/// number plus the nesting.
+pub const MAX_EXPRESSION_OPERATORS: usize = 1000;
+
 /// Static tool struct to process expressions.
 pub struct ExpressionParser {}
 
@@ -148,8 +157,24 @@ impl ExpressionParser {
         let mut expressions = Vec::new();
         let mut stack: Vec<ExpressionParserItem> = Vec::new();
         let mut stop = '\0';
+        lexer.nesting += 1;
+        if lexer.nesting > MAX_EXPRESSION_NESTING {
+            return Err(format!(
+                "Expression is nested deeper than {} levels",
+                MAX_EXPRESSION_NESTING
+            ));
+        }
         loop {
             let t = lexer.next_token_with_stop(stops);
+            if matches!(&t, Token::Operator(_) | Token::Separator('.')) {
+                lexer.operators += 1;
+                if lexer.operators > MAX_EXPRESSION_OPERATORS {
+                    return Err(format!(
+                        "Expression has more than {} operators",
+                        MAX_EXPRESSION_OPERATORS
+                    ));
+                }
+            }
             match &t {
                 Token::EOE => {
                     break;
@@ -305,6 +330,10 @@ impl ExpressionParser {
                     }
                 }
                 Token::ExpressionSeparator() => {
+                    if lexer.nesting == 1 {
+                        // A new top-level statement starts.
+                        lexer.operators = 0;
+                    }
                     let expression = Self::stack_to_expression(&mut stack)?;
                     if !stack.is_empty() {
                         return Err("Failed to evaluate expression".to_string());
@@ -321,6 +350,7 @@ impl ExpressionParser {
         if let Some(e) = Self::stack_to_expression(&mut stack)? {
             expressions.push(e);
         }
+        lexer.nesting -= 1;
         if !stack.is_empty() {
             Err("Failed to evaluate expression".to_string())
         } else if expressions.is_empty() {
@@ -362,13 +392,27 @@ impl ExpressionParser {
 
     /// Tries to create an expression from the current contents of the parser-stack.
     fn stack_to_expression(stack: &mut Vec<ExpressionParserItem>) -> Result<Option<Box<dyn Expression>>, String> {
+        // Fold one operator after the other. A loop, not a recursion: the number of operators
+        // is given by the source text and must not be limited by the thread's stack size.
+        loop {
+            if let Some(result) = Self::fold_stack_once(stack)? {
+                return Ok(result);
+            }
+        }
+    }
+
+    /// Folds the operator with the highest priority on the parser-stack.\
+    /// Returns Ok(None) if an operator was folded and more work may remain, Ok(Some(result))
+    /// if the stack was reduced to the final result.
+    #[allow(clippy::type_complexity)]
+    fn fold_stack_once(stack: &mut Vec<ExpressionParserItem>) -> Result<Option<Option<Box<dyn Expression>>>, String> {
         #[cfg(feature = "Debug")]
         debug!(
             "ExpressionParser.stack_to_expression: stack={:?}",
             vec_to_string(stack)
         );
         if stack.is_empty() {
-            return Result::Ok(None);
+            return Result::Ok(Some(None));
         }
         // Handle operators and identifier
         let mut best_idx = 0usize;
@@ -448,7 +492,7 @@ impl ExpressionParser {
                                 Ok(Box::new(ExpressionOperator::new(op.clone(), le, re)))
                             },
                         ) {
-                            return Self::stack_to_expression(stack);
+                            return Ok(None);
                         }
                     }
                     Operator::AssignUndefined => {
@@ -459,7 +503,7 @@ impl ExpressionParser {
                                 Ok(Box::new(ExpressionAssignUndefined::new(le, re)))
                             },
                         ) {
-                            return Self::stack_to_expression(stack);
+                            return Ok(None);
                         }
                     }
                     Operator::Assign => {
@@ -470,7 +514,7 @@ impl ExpressionParser {
                                 Ok(Box::new(ExpressionAssign::new(le, re)))
                             },
                         ) {
-                            return Self::stack_to_expression(stack);
+                            return Ok(None);
                         }
                     }
                     Operator::Not => {
@@ -482,7 +526,7 @@ impl ExpressionParser {
                                     best_idx,
                                     ExpressionParserItem::SExpression(Box::new(ExpressionNot::new(re))),
                                 );
-                                return Self::stack_to_expression(stack);
+                                return Ok(None);
                             }
                         }
                     }
@@ -511,7 +555,7 @@ impl ExpressionParser {
                         },
                     )
                 {
-                    return Self::stack_to_expression(stack);
+                    return Ok(None);
                 } else {
                     return Err(format!("Failed to parse at '{}'", sep_char));
                 }
@@ -520,7 +564,7 @@ impl ExpressionParser {
             let x = stack.remove(0);
             if let ExpressionParserItem::SExpression(ex) = x {
                 // No operator? Return first one.
-                return Ok(Some(ex));
+                return Ok(Some(Some(ex)));
             } else {
                 return Err(format!("Failed to parse at '{}'", x));
             }
